@@ -6,10 +6,15 @@ import (
 	"encoding/hex"
 	"encoding/json"
 	"fmt"
+	"html"
+	"net/http/httptest"
 	"os"
 	"path/filepath"
+	"regexp"
+	"sort"
 	"strings"
 	"syscall"
+	"time"
 
 	"verifsim/kernel"
 	"verifsim/model"
@@ -27,6 +32,10 @@ type Profile struct {
 	KEKOutage   bool // C05
 	RuleChanges bool // C01/C08: a caller's grants change between requests (same address)
 	DiskFaults  bool // C04 (concurrent engine): the disk is full during chosen steps
+	HugeValues  bool // a tenth of the runs also put values beyond a mebibyte
+	Soak        bool // one run in forty ends with a long stretch (1000-2000) of cheap writes in one process
+	Symlinks    bool // the database path may become a symbolic link before a reopen
+	Dashboard   bool // the HTML listing at / is fetched too
 	LaxModes    bool // C03: the file may have been given a lax mode by an operator before a reopen
 	CondHeavy   bool // C09
 	FileClient  bool // C09: judge FileClient on a file generated from the model
@@ -110,6 +119,11 @@ func RunSeq(s *kernel.Sim, prof *Profile) *Env {
 	corruptRun := prof.Corruptions
 	outageRun := prof.KEKOutage && t.Bool(1, 2)
 	e.diskFaultRun = prof.DiskFaults && t.Bool(1, 2)
+	e.hugeRun = prof.HugeValues && t.Bool(1, 10)
+	soak := 0
+	if prof.Soak && t.Bool(1, 40) {
+		soak = 1030 + t.Choice(1100)
+	}
 	golden := ""
 	if prof.Golden && t.Bool(1, 3) {
 		golden = pickGolden(e)
@@ -157,7 +171,8 @@ func RunSeq(s *kernel.Sim, prof *Profile) *Env {
 		if faultRun && t.Bool(1, 4) {
 			e.Sink.mu.Lock()
 			e.Sink.FailAt = e.Sink.n + t.Choice(2)
-			e.Sink.FailKind = t.Choice(3)
+			e.Sink.FailKind = t.Weighted([]int{3, 3, 3, 1, 1})
+			e.Sink.StallD = []time.Duration{time.Second, 6 * time.Second, 31 * time.Second, 2 * time.Minute, 11 * time.Minute}[t.Choice(5)]
 			e.Sink.mu.Unlock()
 		}
 		var cor *Corruption
@@ -175,6 +190,13 @@ func RunSeq(s *kernel.Sim, prof *Profile) *Env {
 		e.Sink.mu.Lock()
 		e.Sink.FailAt = -1
 		e.Sink.mu.Unlock()
+		if e.HTTP && prof.Dashboard && !s.Failed() && !e.auditLatched && t.Bool(1, 4) {
+			who := c
+			if nRestricted > 0 && t.Bool(1, 2) {
+				who = e.Callers[1+t.Choice(nRestricted)]
+			}
+			e.dashboard(who)
+		}
 		e.Corrupt = nil
 		delete(e.WhoIsFault, c.Addr)
 		if s.Failed() {
@@ -191,6 +213,9 @@ func RunSeq(s *kernel.Sim, prof *Profile) *Env {
 			}
 		}
 	}
+	if !s.Failed() && soak > 0 {
+		e.soak(soak)
+	}
 	if !s.Failed() && prof.FileClient {
 		e.checkFileClient()
 	}
@@ -198,6 +223,98 @@ func RunSeq(s *kernel.Sim, prof *Profile) *Env {
 		e.fail("kek", "the key-encryption key was consulted %d times outside Open/create", e.KEK.Count()-e.KekBase)
 	}
 	return e
+}
+
+var dashRow = regexp.MustCompile(`(?s)<tr>\s*<td>(.*?)</td>`)
+
+// dashboard fetches the HTML listing at / as c: it shows metadata, so it is
+// bound by the same rule as list - exactly the secrets on which the caller
+// holds info, never a value.
+func (e *Env) dashboard(c *Caller) {
+	req := httptest.NewRequest("GET", "/", nil)
+	req.RemoteAddr = c.Addr
+	for _, k := range sortedKeys(c.Headers) {
+		req.Header.Set(k, c.Headers[k])
+	}
+	rec := httptest.NewRecorder()
+	e.Mux.ServeHTTP(rec, req)
+	body := rec.Body.Bytes()
+	e.tracef("caller %d GET / -> %d (%d bytes)", c.ID, rec.Code, len(body))
+	if m := e.containsMarker(body); m != nil {
+		e.fail("list", "caller %d GET /: the HTML listing contains secret value bytes %q", c.ID, m)
+	}
+	if rec.Code != 200 {
+		return
+	}
+	want := map[string]bool{}
+	for _, i := range e.listFor(c) {
+		want[i.Name] = true
+	}
+	shown := map[string]bool{}
+	for _, m := range dashRow.FindAllSubmatch(body, -1) {
+		shown[html.UnescapeString(string(m[1]))] = true
+	}
+	for _, n := range sortedBoolKeys(shown) {
+		if !want[n] && e.Model.Has(n) {
+			e.fail("list", "caller %d GET /: the HTML listing shows secret %q, on which the caller holds no info grant (rules %v)", c.ID, n, c.Rules)
+		}
+	}
+	if bytes.Contains(body, []byte("<th>Name</th><th>Versions</th>")) {
+		for _, n := range sortedBoolKeys(want) {
+			if !shown[n] {
+				e.fail("list", "caller %d GET /: the HTML listing lacks secret %q, on which the caller holds info", c.ID, n)
+			}
+		}
+	}
+	e.S.Probe("dashboard")
+}
+
+func sortedBoolKeys(m map[string]bool) []string {
+	var ks []string
+	for k := range m {
+		ks = append(ks, k)
+	}
+	sort.Strings(ks)
+	return ks
+}
+
+// soak: a long stretch of writes in one process lifetime (nothing in the
+// statement is limited to short histories: counters, periodic maintenance
+// and size thresholds only show after many saves). Each call is judged by
+// its result; the state is compared at the end and after a restart.
+func (e *Env) soak(n int) {
+	e.S.Fault("soak")
+	name := "soak/" + e.nonce
+	for i := 0; i < n && !e.S.Failed(); i++ {
+		op := model.Op{Kind: model.OpPut, Name: name, Value: []byte(fmt.Sprintf("MK%s-soak-%d", e.nonce, i))}
+		if i%64 == 63 {
+			op = model.Op{Kind: model.OpDelete, Name: name}
+		}
+		exp := e.Model.Peek(op)
+		res := e.Exec(e.Super, op)
+		e.Ops++
+		if res.Class != model.OK || !model.EqualRes(res, exp.OK) {
+			e.fail("result", "write %d of a long stretch of writes: %s returned %s, model says %s", i+1, op, res, exp.OK)
+			return
+		}
+		e.Model.Apply(op)
+	}
+	e.tracef("soak: %d writes", n)
+	if got, err := e.Observe(); err != nil || got != e.Model.DumpVisible() {
+		e.fail("state", "after %d writes in a row the observable state differs from the model (%v)", n, err)
+	}
+	if e.Prof.Scan {
+		e.scanFiles("after a long stretch of writes")
+	}
+	if e.KEK.Count() != e.KekBase {
+		e.fail("kek", "the key-encryption key was consulted %d times during a long stretch of writes", e.KEK.Count()-e.KekBase)
+	}
+	if e.Prof.RestartMode != 0 {
+		out := e.KEK.Outage
+		e.KEK.Outage = false // a restart needs the key service
+		e.restart()
+		e.KEK.Outage = out
+	}
 }
 
 // restart drops the handle and reopens the same file with the same key.
@@ -221,6 +338,22 @@ func (e *Env) restartAs(kind, what string) {
 		e.laxIno = st.Ino
 	}
 	_ = lax
+	if e.Prof.Symlinks && e.T.Bool(1, 6) {
+		// an operator moved the database to another volume and left a
+		// (relative) symbolic link at the configured path
+		if fi, err := os.Lstat(e.Path); err == nil && fi.Mode().IsRegular() {
+			e.nLinks++
+			rel := filepath.Join("data", fmt.Sprintf("real-%d.db", e.nLinks))
+			os.MkdirAll(filepath.Join(e.Dir, "data"), 0o700)
+			if os.Rename(e.Path, filepath.Join(e.Dir, rel)) == nil {
+				if err := os.Symlink(rel, e.Path); err != nil {
+					os.Rename(filepath.Join(e.Dir, rel), e.Path)
+				} else {
+					e.S.Fault("db-path-is-symlink")
+				}
+			}
+		}
+	}
 	before := e.ReadFile()
 	var stB syscall.Stat_t
 	syscall.Stat(e.Path, &stB)
@@ -305,12 +438,21 @@ func (e *Env) step(st *seqState, c *Caller, op model.Op, cor *Corruption, whoFau
 				lim = uint64(cur - e.T.Range(1, 100))
 			}
 		}
-		setFileSizeLimit(lim)
-		e.S.Fault("disk-full-call")
+		if e.T.Bool(1, 5) {
+			// ... or the process is out of file descriptors: no file can be
+			// opened at all, not even to look at what is there
+			lim = 0
+			setNoFileLimit(true)
+			e.S.Fault("fd-exhausted-call")
+		} else {
+			setFileSizeLimit(lim)
+			e.S.Fault("disk-full-call")
+		}
 	}
 	res := e.Exec(c, op)
 	if diskFull {
 		setFileSizeLimit(0)
+		setNoFileLimit(false)
 	}
 	e.seqOp = nil
 	e.Sink.OnWrite, e.Sink.OnSync = nil, nil
@@ -390,8 +532,8 @@ func (e *Env) step(st *seqState, c *Caller, op model.Op, cor *Corruption, whoFau
 			// as a 4xx/5xx other than the store's own 403/404
 			// (a store-side failure also yields 4xx/5xx, but only after the
 			// audit record of the permission decision was written)
-			if hr.Status >= 400 && hr.Status != 403 && hr.Status != 404 && len(recs) == 0 {
-				rejected = true
+			if hr.Status >= 400 && hr.Status != 403 && hr.Status != 404 && len(recs) == 0 && !ctx.AuditFail {
+				rejected = true // (a request whose audit write failed did reach the store)
 			}
 		}
 		if rejected {
@@ -400,6 +542,9 @@ func (e *Env) step(st *seqState, c *Caller, op model.Op, cor *Corruption, whoFau
 			}
 			if len(recs) != 0 {
 				e.fail("http-gate", "%s: rejected request (status %d) reached the store: audit record %s", desc, hr.Status, recs[0].Data)
+			}
+			if ctx.AuditFail {
+				e.fail("http-gate", "%s: rejected request (status %d) reached the store: it attempted an audit write", desc, hr.Status)
 			}
 			if res.Class == model.OK {
 				e.fail("http-gate", "%s: rejected request produced a successful result", desc)
